@@ -578,7 +578,11 @@ Definition p_create_session (lease : N) (pst : pstate) (pre s : hstep) (tid cid 
                  "C19:create-session-sequence-not-recorded"
         ;; check (match find_dsession sess (hs_dump s) with Some ss => dss_client ss =? cid | None => false end)
                  "C19:create-session-without-session"
-      | _ => ""
+      | _ =>
+        (* a new CREATE_SESSION that is refused leaves no trace: its sequence number is not consumed, so that the
+           retransmission is executed instead of being answered with the cached reply of an earlier request *)
+        check (match find_dclient cid (hs_dump s) with Some c' => dc_seq c' =? dc_seq c | None => true end)
+              "C19:refused-create-session-consumed-sequence"
       end
     else
       check (creply_eqb r (mkReply ERR_SEQ_MISORDERED [RStatus OP_CREATE_SESSION ERR_SEQ_MISORDERED]))
